@@ -134,6 +134,7 @@ struct Conn {
 std::shared_ptr<Conn> client_connect(const std::string &addr,size_t cap_to_server,size_t cap_to_client);
 bool is_listening(const std::string &addr);
 int open_sim_fds();                     // number of simulated descriptors currently open
+int open_accepted_fds();                // ... of which were returned by accept() (server side connections)
 std::string describe_fds();
 
 // ---------------------------------------------------------------- in-memory file system
